@@ -44,7 +44,7 @@ def make_item(seed, k, variant=None):
     # (negation is exact for all of them)
     r2 = random.Random(f"c12ret/{seed}/{k}")
     if r2.random() < 0.33:
-        spec["ret"] = r2.choice(["np64", "np32", "int", "np0d"])
+        spec["ret"] = r2.choice(["np64", "np32", "int", "np0d", "np0d_memo", "np0d_memo"])
     # a third of the pairs run both directions on ONE instance (max f, then min -f): equivalent for a library whose
     # runs do not depend on instance history, and reaches direction state cached on the instance
     # some max tasks get their direction assigned after construction as the plain string "max" (pydantic does not validate
